@@ -1,5 +1,6 @@
 // C04 — async_rw_mutex: exclusive writers, grouped readers, request-order grants.   Engine: E-vt.
 #include "vt.hpp"
+#include "quarantine.hpp"    // poisoning quarantine allocator: use-after-free oracle for the whole process
 
 #include <pika/execution.hpp>
 #include <pika/execution/async_rw_mutex.hpp>
@@ -145,6 +146,7 @@ static Outcome run(tape_t const& tape)
     Tape t(tape);
     Case c = decode(t);
     vt::install_vt_hook();
+    vf::quarantine::enabled().store(true);
     vt::Sched s;
     World W;
     W.c = &c;
@@ -285,6 +287,10 @@ static Outcome run(tape_t const& tape)
     s.run(t);
     mtx.reset();
     kept_op_states.clear();
+    {
+        std::string qc = vf::quarantine::check();
+        if (!qc.empty()) W.set_fail("write_after_free", qc);
+    }
     Outcome out;
     if (W.fail.empty())
         for (std::size_t i = 0; i < n; ++i)
